@@ -38,6 +38,7 @@ type caseIn struct {
 }
 
 var out *lib.Out
+var skipped = 0
 var bigBudget = 10 // number of large-body pure cases still allowed (Coq term size)
 
 func repoDir() string {
@@ -478,7 +479,18 @@ func digestKey(b []byte) []byte {
 	return k
 }
 
+// liveFailures counts live/HTTP cases in which the daemon did not deliver; after a few of
+// them the remaining live cases are skipped (each would sit in its read deadline), the
+// failures already recorded decide the run.
+var liveFailures = 0
+
+const maxLiveFailures = 3
+
 func run(in caseIn, name string) {
+	if liveFailures >= maxLiveFailures && (in.Kind == "http" || in.Kind == "live" || in.Kind == "livebig") {
+		skipped++
+		return
+	}
 	switch in.Kind {
 	case "enc":
 		pureEnc(in, name)
@@ -555,6 +567,7 @@ func main() {
 	for k := 0; k < *nbig; k++ {
 		run(caseIn{Kind: "livebig", Seed: r.U64()}, fmt.Sprintf("livebig-%d", k))
 	}
+	out.Stat("live_cases_skipped_after_failures", skipped)
 	out.Stat("feature_combinations_exercised", len(featSeen))
 	out.Stat("feature_combinations_total", featTotal)
 }
